@@ -403,6 +403,8 @@ def run(ctx):
     jobs.append(("needle", needle_node_lists(), None))
     jobs.insert(0, ("deep", deep_node_lists(), None))       # the long one first
     part = core.fan_out(ctx, _chunk, jobs)
+    from .. import callforms              # pylint: disable=import-outside-toplevel
+    part.merge(callforms.explore("C10"))
     cnt = part.counters
     coverage = {
         "states": cnt.get("states", 0),
@@ -431,6 +433,9 @@ def run(ctx):
 
 
 def replay(case):
+    if case.get("kind") == "callform":
+        from .. import callforms          # pylint: disable=import-outside-toplevel
+        return callforms.replay(case)
     nodes = tuple(tuple(tuple(p) for p in n) for n in case["nodes"])
     if case["kind"] == "similar":
         return [m for _c, m in check_similarity(nodes, case["flat"])]
